@@ -570,6 +570,11 @@ std::vector<Graph::NodeId> TreeGraphImpl<GraphImpl>::getNodePathBetweenTwoNodes(
   }
   // (tmp1 - 1) and (tmp2 - 1) now point toward the first non-common nodes
 
+  // the two lines of ancestors end at different nodes (a forest, a graph under construction):
+  // there is no common ancestor, pathMatrix1[tmp1] below would be read past the end
+  if (tmp1 == pathMatrix1.size())
+    throw Exception("TreeGraphImpl::getNodePathBetweenTwoNodes: nodes " + TextTools::toString(nodeA) + " and " + TextTools::toString(nodeB) + " have no common ancestor.");
+
   for (size_t y = 0; y < tmp1; ++y)
   {
     path.push_back(pathMatrix1[y]);
